@@ -1423,6 +1423,40 @@ func checkFrameLimits(c *Ctx, w *zworld) {
 				c.check(ok2, "O3", "recvPacket "+what+" after the zero-length test", p.Pos(in.Pos()), "length >= 1 on every path here", "a zero-length frame is not refused before its "+what)
 			})
 			c.check(n >= 2, "O3", "recvPacket body sites", p.Pos(rp.Pos()), fmt.Sprintf("%d sites", n), "recvPacket no longer allocates and reads the body after decoding the length")
+			// the limit is inclusive: the peer's sendPacket may fill a frame to exactly maxMsgLength, so the refusal
+			// is entered only with length > limit
+			for _, b := range rp.Blocks {
+				iff, ok := b.Instrs[len(b.Instrs)-1].(*ssa.If)
+				if !ok || len(b.Succs) != 2 {
+					continue
+				}
+				cmp, ok := iff.Cond.(*ssa.BinOp)
+				if !ok {
+					continue
+				}
+				var other ssa.Value
+				switch {
+				case fromLength(cmp.X, 0):
+					other = cmp.Y
+				case fromLength(cmp.Y, 0):
+					other = cmp.X
+				default:
+					continue
+				}
+				if k, isK := constInt(other); !isK || k != 256*1024 {
+					continue
+				}
+				for side, sb := range b.Succs {
+					ret, isRet := sb.Instrs[len(sb.Instrs)-1].(*ssa.Return)
+					if !isRet || len(ret.Results) == 0 || isNilConst(ret.Results[len(ret.Results)-1]) || len(sb.Preds) != 1 {
+						continue
+					}
+					lt := z.term(lengthV)
+					facts := z.condFacts(cmp, side == 0)
+					c.check(entails(facts, leq(linConst(256*1024+1), lt, 0)), "O3", "recvPacket refuses only frames beyond the limit", p.Pos(cmp.Pos()), "refused: length > maxMsgLength",
+						"a frame of exactly maxMsgLength bytes — which the peer's sendPacket accepts — is refused as too long: the session ends on a legal packet (a full NAME batch, a full DATA chunk)")
+				}
+			}
 		}
 		// O4: a failed body read is an error
 		var bodyRead *ssa.Call
